@@ -80,18 +80,25 @@ class Check:
             if kind == 'data':
                 n = rng.randint(1, 3)
                 rule['files'] = [{'name': f'r{i}_{rng.choice(NAMES)}_{k}.txt', 'exec': rng.random() < 0.2} for k in range(n)]
+                if rng.random() < 0.2:
+                    rule['preserve_path'] = True
+                    rule['files'] = [{'name': f'pp{i}/lvl{k}/' + f['name'], 'exec': f['exec']} for k, f in enumerate(rule['files'])]
                 rule['dir'] = rng.choice([None, f'share/d{i}', 'share/common', f'/etc/conf {i}', '/var/lib/x', 'libexec/y', f'share/ünï{i}'])
-                if rng.random() < 0.25:
+                if rng.random() < 0.25 and not rule.get('preserve_path'):
                     rule['rename'] = [f'renamed{i}_{k}' + rng.choice(['', '.cfg', ' with space', ' trailing ']) for k in range(n)]
-                rule['mode'] = rng.choice([None, None, 'rwxr-x---', 'rw-r-----', 'rw-rw-rw-', 'r--r--r--'])
+                rule['mode'] = rng.choice([None, None, 'rwxr-x---', 'rw-r-----', 'rw-rw-rw-', 'r--r--r--', 'rwsr-xr-x', 'rwxr-sr-x'])   # (a sticky bit on files is dropped by meson with a deprecation notice: not generated)
                 rule['tag'] = rng.choice(tagset)
             elif kind == 'headers':
                 n = rng.randint(1, 3)
                 rule['files'] = [{'name': f'r{i}_hdr{k}.h'} for k in range(n)]
                 rule['subdir'] = rng.choice([None, f'inc{i}', 'deep/er'])
+                if rng.random() < 0.25:
+                    rule['preserve_path'] = True
+                    rule['files'] = [{'name': f'hp{i}/n{k}/' + f['name']} for k, f in enumerate(rule['files'])]
             elif kind == 'man':
                 rule['files'] = [{'name': f'r{i}_tool.{rng.choice("158")}'} for _ in range(rng.randint(1, 2))]
                 rule['files'] = list({f['name']: f for f in rule['files']}.values())
+                rule['locale'] = rng.choice([None, None, 'de', 'pt_BR'])
             elif kind == 'subdir':
                 rule['name'] = f'tree{i}'
                 dirs = [d for d in ['a', 'a/b', 'c dir', 'emptyd'] if rng.random() < 0.6]
@@ -223,16 +230,21 @@ class Check:
                     kw.append(f"rename: {lst(rule['rename'])}")
                 if rule.get('mode'):
                     kw.append(f"install_mode: {q(rule['mode'])}")
+                if rule.get('preserve_path'):
+                    kw.append('preserve_path: true')
                 out.append(f"install_data({lst([f['name'] for f in rule['files']])}{''.join(', ' + x for x in kw)})\n")
             elif k == 'headers':
                 for f in rule['files']:
                     mkfile(root, f['name'], IR.content_of(f['name']), False)
                 hk = [f"subdir: {q(rule['subdir'])}"] if rule.get('subdir') else []
+                if rule.get('preserve_path'):
+                    hk.append('preserve_path: true')
                 out.append(f"install_headers({lst([f['name'] for f in rule['files']])}{''.join(', ' + x for x in hk)})\n")
             elif k == 'man':
                 for f in rule['files']:
                     mkfile(root, f['name'], IR.content_of(f['name']), False)
-                out.append(f"install_man({lst([f['name'] for f in rule['files']])})\n")
+                mk = f", locale: {q(rule['locale'])}" if rule.get('locale') else ''
+                out.append(f"install_man({lst([f['name'] for f in rule['files']])}{mk})\n")
             elif k == 'subdir':
                 base = os.path.join(root, rule['name'])
                 os.makedirs(base, exist_ok=True)
